@@ -19,7 +19,10 @@ TRUSTED_BASE = [
 ASSUMPTIONS = [
     'timing verdicts use slack: a wait may be reported 0.2 ms short; "should have given up" is only claimed when the back-off timer could fire no '
     'earlier than 200 ms after cancel() returned, or 1 s after the MaxElapsedTime deadline (latency bound on the timeout context closing Done)',
-    'Multiplier > 0 and non-negative intervals (domain of the model); handler panics are out of scope (Retry does not recover)',
+    'fair select: when ctx.Done() and a zero/negative back-off timer are both ready Go chooses uniformly at random (language spec); more than 40 retries in a row '
+    'after cancel() had returned are rejected (probability <= 2^-40 per case for code that looks at the context in that select; the model admits any number, '
+    'C12_zero_wait_race_count / C12_gives_up_within_K_zero_waits state the contract)',
+    'handler panics are out of scope (Retry does not recover); float64/int64 overflow and IEEE rounding are outside the model',
 ]
 
 def zl(l): return C.coq_list([C.coq_Z(x) for x in l])
@@ -97,6 +100,11 @@ def evaluate(pid, res, data, tag):
         early = c['err'] != 0 and ncalls < 1 + iters(cf['mr'])
         if early: res.count('gave up early: ' + ('cancel' if c['cancelkind'] else 'max-elapsed'))
         if c['cancelkind'] and c['err'] != 0 and not early: res.count('cancelled but ran to the end')
+        if c['cancelkind'] == 1 and c['cpost'] >= 0:
+            ends = [e[3] for e in c['trace'] if e[0] == 0]
+            late = sum(1 for pe in ends[:-1] if c['cpost'] <= pe)      # re-invocations started after cancel() had returned
+            if late: res.count('retries after the context had ended (select race lost to a ready timer)', late)
+            if c['family'].endswith('zero-backoff'): res.count('zero-backoff cases: gave up at the first select' if late == 0 else 'zero-backoff cases: lost the race %d time(s)' % late)
         if not c['done']:
             res.violations.append(dict(signature='C12/no-return', what='the wrapped handler did not return within 30 s', case=describe(c)))
             continue
@@ -117,7 +125,7 @@ def evaluate(pid, res, data, tag):
         for i in r['R_vio']:
             res.violations.append(dict(signature='C12/monitor',
                 what='Retry behaviour rejected by retry_monitor (first success wins / <= MaxRetries retries / hook 1,2,.. with the back-off delay / '
-                     'waited at least the delay / error kept / gives up only and timely on an ended context)', case=describe(chunk[i])))
+                     'waited at least the delay / error kept / gives up only and timely on an ended context, at most 40 zero-wait retries after it ended)', case=describe(chunk[i])))
         for i in r['R_mis']:
             res.mismatches.append(dict(kind='Corr.C12.c12_mismatch (Handler/Retry.v retry vs middleware.Retry)',
                                        explained_by_violation=i in r['R_vio'], case=describe(chunk[i])))
@@ -140,7 +148,7 @@ def run(ctx):
     res.rule = ('one case = one message through a real middleware.Retry value; 1..6 messages share ONE wrapped handler, sequentially or concurrently with staggered '
                 'starts, or as handler middleware of a real Router with 2..5 messages in flight, or inside a real Router over a real GoChannel that is closed while Retry sleeps in a long back-off; configurations MaxRetries {-3,-1,0,1..8} x InitialInterval 0..8 ms (+odd ns) x MaxInterval 0..40 ms x Multiplier {1/2,1,5/4,3/2,2,9/4,3,4,..512} x '
                 'RandomizationFactor {0,1/4,1/2,1} x OnRetryHook/Logger set or nil; scripts fail^i then succeed (i = 0..MaxRetries) or fail forever, with 0..3 outputs also '
-                'next to errors; context cancelled by the handler at every attempt index (long and short next wait), by another goroutine in the middle of a wait, '
+                'next to errors; context cancelled by the handler at every attempt index (long, short and ZERO next wait: zero-value / InitialInterval-only / MaxInterval 0 configurations with 50..80 retries), by another goroutine in the middle of a wait, '
                 'MaxElapsedTime ending in a long wait or while a slow handler runs (Stop); non-trivial = at least one retry or an early give-up, distinct by '
                 'configuration + script + cancellation + attempts made')
     return res
